@@ -130,7 +130,6 @@ def switches(draw, nums, base=None):
 @st.composite
 def run_step(draw, j, nums, seen, db, prev_sw, excl, state):
     nsim = draw(st.integers(1, 3))
-    seen_before = set(seen)
     err_sim, err_kind = None, None
     if not db:
         err_sim, err_kind = -1, "nodb"
@@ -232,17 +231,6 @@ def run_step(draw, j, nums, seen, db, prev_sw, excl, state):
         alt["eo"] = True
         alt["ss"] = False
         alt["sf"] = {n: False for n in sw["sf"]}
-    # user numbers defined by an earlier call whose files this call re-opens: with the string switch on, all but the first of
-    # them get their heading line twice in the string (once in the file) -> at most one such file per call (see ASSUMPTIONS)
-    reopened = [n for n in nums if n in seen_before and place.get(n) != 0 and not (n == n_basic and err_sim == 0)]
-    pick = draw(st.integers(0, 7))
-    for v in (sw, alt):
-        on = [n for n in reopened if v["sf"].get(str(n))]
-        if v["ss"] and len(on) >= 2:
-            excl["two_reopened_files_with_string_on"] += 1
-            for n in on:
-                if n != on[pick % len(on)]:
-                    v["sf"][str(n)] = False
     # mixed per-number string switches are a known finding: the generator would like them in 1 of 6 steps
     if len(nums) >= 2 and draw(st.integers(0, 5)) == 0:
         excl["mixed_string_switch"] += 1
@@ -260,8 +248,7 @@ def case_strategy(draw):
     nodb = draw(st.integers(0, 24)) == 0
     nsteps = draw(st.integers(1, 3))
     steps, seen, db, prev = [], set(), not nodb, None
-    excl = {"print_dump_false": 0, "mixed_string_switch": 0, "selected_output_false_at_call_start": 0,
-            "two_reopened_files_with_string_on": 0}
+    excl = {"print_dump_false": 0, "mixed_string_switch": 0, "selected_output_false_at_call_start": 0}
     state = {"punch_false": False}
     for j in range(nsteps):
         if j > 0 and draw(st.integers(0, 4)) == 0:
